@@ -277,7 +277,12 @@ func AnalyzeProgram(program *ssa.Program, l *config.LogGroup) {
 	for _, f := range sortedFunctions {
 		results := AnalyzeFunction(f, l)
 		if !results.DeferStackBounded {
-			l.Warnf("Unbounded defer stack in %s (%s, %v)\n", f.Name(), f.Pkg.Pkg.Name(), f.Prog.Fset.PositionFor(f.Pos(), false))
+			// f.Pkg is nil for synthetic functions (wrappers, instances of generic functions)
+			pkgName := ""
+			if f.Pkg != nil {
+				pkgName = f.Pkg.Pkg.Name()
+			}
+			l.Warnf("Unbounded defer stack in %s (%s, %v)\n", f.Name(), pkgName, f.Prog.Fset.PositionFor(f.Pos(), false))
 		} else {
 			boundedFuncCount++
 		}
